@@ -716,7 +716,11 @@ class Harness:
         if cmd in ARROWS:
             for n, old in before:
                 new = n.w.focus
-                if new is not old and new is not None and not new.selectable():
+                if new is not old and new is not None and not new.selectable() and any(
+                    w.selectable() for w, _o in n.w.contents
+                ):
+                    # (a container none of whose children is selectable has nothing selectable to move to: its
+                    # focus may be re-seated by a re-layout, e.g. GridFlow rebuilding its display widget)
                     self.report(
                         Violation(
                             "arrow-moves-to-selectable",
